@@ -133,3 +133,9 @@ Example ex_prefixes_covers :
   | RErr _ => False
   end.
 Proof. vm_compute. repeat split. Qed.
+
+(* G: the constants read from syncer/proof.go are the ones the model was written for *)
+Lemma gen_consts_expected_l :
+  max_proof_depth = 128 /\ min_proof_version = 0 /\ latest_proof_version = 1 /\
+  proof_entry_full = 1 /\ proof_entry_hash = 2 /\ MAX_PROOF_DEPTH = max_proof_depth.
+Proof. repeat split. Qed.
